@@ -111,10 +111,8 @@ impl Inst {
             }
             _ => return true,
         }
-        let (idx, left, mask) = g.verif_cursor();
-        if 4 - left != done {
-            return false;
-        }
+        let (idx, _, mask) = g.verif_cursor();
+        let _ = done;
         for (s, d, promo) in g.verif_entries().into_iter().skip(idx) {
             let under = bb_list(d & mask);
             if promo && !under.is_empty() {
